@@ -107,6 +107,10 @@ public:
 
     //! Allocate space for n objects.
     pointer allocate( size_type n, const void* /*hint*/ = nullptr) {
+        if (n > (~size_type(0)) / sizeof(value_type)) {
+            // n*sizeof(value_type) is not representable
+            throw_exception(std::bad_alloc());
+        }
         pointer p = static_cast<pointer>( my_pool->malloc( n*sizeof(value_type) ) );
         if (!p)
             throw_exception(std::bad_alloc());
